@@ -90,6 +90,31 @@ pub fn c02(ctx: &Ctx, rep: &mut Report) {
             ..Case::default()
         }
     }, run_c02);
+    // the same workloads with the connection ending at a generated step (a Multiplexor dropped on either side, a Close from the peer):
+    // what a reader gets stays a prefix of what was written - no hole, nothing twice - and after a clean shutdown that was completed
+    // before a local drop the sequences are equal (C08 promises the flush)
+    ctx.prop(
+        rep,
+        "integrity-connection-end",
+        ctx.tier.pick(30_000, 1_000_000),
+        200,
+        || {
+            (stream_workload(sh), 0u32..160, 0usize..3).prop_map(|(mut c, step, kind)| {
+                let what = match kind {
+                    0 => What::DropMux { side: 0 },
+                    1 => What::DropMux { side: 1 },
+                    _ => What::Inject { from: 1, msg: RawMsg::Close },
+                };
+                c.events.push(RawEvent { when: Trigger::FromStep(step), what });
+                c
+            })
+        },
+        |c| {
+            let mut o = run_c02(c);
+            o.classes.push("connection-ended");
+            o
+        },
+    );
     ctx.enumerate(rep, "large-window", LARGE_WINDOW_CASES, 4, large_window_case, |case| {
         let mut o = run_c02(case);
         o.classes.push("window-300-to-70000");
